@@ -213,7 +213,7 @@ func checkC06(r *Run) propMeta {
 			}
 		}
 	}
-	r.Floor("C06-R4-generated-first", 2)
+	r.Floor("C06-R4-generated-first", 1)
 	// ---- R5: user alias text is substituted into an expression only after the frame rewriter has run on it.
 	// The frame rewriter resolves every identifier of the tree in the generated-name table; an alias the user chose
 	// (n0, n1, s0 …) that is already in the tree when it runs is taken for the generated identifier of that spelling.
@@ -294,9 +294,72 @@ func checkShapeAliasCollisions(r *Run, tp *packages.Package) {
 	info := tp.TypesInfo
 	// shapeField(e): the optimiser shape field (string-typed) that e converts, directly or through a local
 	var shapeField func(fd *ast.FuncDecl, e ast.Expr, depth int) *types.Var
+	// carrier fields: a field of a struct declared in this package that is filled (in a composite literal or by an
+	// assignment) from a shape field carries that alias
+	type carrierSrc struct {
+		fd *ast.FuncDecl
+		e  ast.Expr
+	}
+	carrierSources := map[*types.Var][]carrierSrc{}
+	for _, f := range tp.Syntax {
+		for _, d := range f.Decls {
+			fd, ok := d.(*ast.FuncDecl)
+			if !ok || fd.Body == nil {
+				continue
+			}
+			ast.Inspect(fd.Body, func(n ast.Node) bool {
+				switch x := n.(type) {
+				case *ast.CompositeLit:
+					nt := namedOf(info.TypeOf(x))
+					if nt == nil || nt.Obj().Pkg() != tp.Types {
+						return true
+					}
+					for _, el := range x.Elts {
+						if kv, ok := el.(*ast.KeyValueExpr); ok {
+							if kid, ok := kv.Key.(*ast.Ident); ok {
+								if fv, ok := info.Uses[kid].(*types.Var); ok && fv.IsField() {
+									carrierSources[fv] = append(carrierSources[fv], carrierSrc{fd, kv.Value})
+								}
+							}
+						}
+					}
+				case *ast.AssignStmt:
+					if len(x.Lhs) != len(x.Rhs) {
+						return true
+					}
+					for i, l := range x.Lhs {
+						if sel, ok := ast.Unparen(l).(*ast.SelectorExpr); ok {
+							if fv, ok := info.Uses[sel.Sel].(*types.Var); ok && fv.IsField() && fv.Pkg() == tp.Types {
+								carrierSources[fv] = append(carrierSources[fv], carrierSrc{fd, x.Rhs[i]})
+							}
+						}
+					}
+				}
+				return true
+			})
+		}
+	}
+	carrierOf := func(fv *types.Var, depth int) *types.Var {
+		var found *types.Var
+		for _, src := range carrierSources[fv] {
+			sf := shapeField(src.fd, src.e, depth+1)
+			if sf == nil || (found != nil && sf != found) {
+				return nil
+			}
+			found = sf
+		}
+		return found
+	}
 	shapeField = func(fd *ast.FuncDecl, e ast.Expr, depth int) *types.Var {
 		if depth > 4 {
 			return nil
+		}
+		if sel, ok := ast.Unparen(e).(*ast.SelectorExpr); ok {
+			if s := info.Selections[sel]; s != nil && s.Kind() == types.FieldVal {
+				if fv := s.Obj().(*types.Var); fv.Pkg() == tp.Types {
+					return carrierOf(fv, depth)
+				}
+			}
 		}
 		switch x := ast.Unparen(e).(type) {
 		case *ast.CallExpr:
@@ -459,6 +522,10 @@ func checkShapeAliasCollisions(r *Run, tp *packages.Package) {
 					case *ast.KeyValueExpr:
 						if k, ok := p.Key.(*ast.Ident); ok {
 							role = "key " + k.Name
+							// a field of a struct of this package only carries the alias on: judged where the field is used
+							if kf, ok := info.Uses[k].(*types.Var); ok && kf.IsField() && kf.Pkg() == tp.Types {
+								role = "local"
+							}
 						}
 					case *ast.CompositeLit:
 						role = "element of " + strings.TrimPrefix(types.TypeString(info.TypeOf(p), func(*types.Package) string { return "" }), ".")
@@ -477,7 +544,8 @@ func checkShapeAliasCollisions(r *Run, tp *packages.Package) {
 				}
 				uses++
 				if role != "key Alias" {
-					key := funcDeclName(fd) + ":" + fv.Name()
+					// keyed by what the alias is used as, not by the private function that does it
+					key := fv.Name() + "→" + role
 					if _, seen := internal[key]; !seen {
 						internal[key] = e.Pos()
 					}
@@ -490,7 +558,7 @@ func checkShapeAliasCollisions(r *Run, tp *packages.Package) {
 		r.Undecide("C06-R8: no use of a user-spelled alias of an optimiser shape found in package translate")
 	} else {
 		for _, key := range sortedKeys(internal) {
-			r.Fail("C06-R8-alias-internal-use", key, internal[key], "the user's alias %s names a column inside the statement (a CTE column list, an ORDER BY, a qualified reference), not only an output column: renaming the alias changes the statement beyond its output aliases", key[strings.LastIndex(key, ":")+1:])
+			r.Fail("C06-R8-alias-internal-use", key, internal[key], "the user's alias %s: it names a column inside the statement (a CTE column list, an ORDER BY, a qualified reference), not only an output column: renaming the alias changes the statement beyond its output aliases", key)
 		}
 		r.Pass("C06-R8-alias-internal-use", "translate:scanned", token.NoPos, "%d uses of user-spelled shape aliases examined, %d functions use one as an internal name", uses, len(internal))
 	}
